@@ -279,7 +279,7 @@ func (sc *c08Scenario) handshake(w *simWorld, b *simBot, L rn.Local, recv *rn.Op
 		w.stat("refused")
 		sc.note("refused %v", want)
 		if fmt.Sprint(got) != fmt.Sprint(want) {
-			sc.bad(w, fmt.Sprintf("refusal-messages:want=%v", want), "received OPEN with hold time %d must be refused with %v; the daemon answered %v", sc.remote.Hold, want, got)
+			sc.bad(w, fmt.Sprintf("refusal-messages:want=%d/%d", res.NotifCode, res.NotifSub), "received OPEN with hold time %d must be refused with %v; the daemon answered %v", sc.remote.Hold, want, got)
 		}
 		if b.connected() {
 			sc.bad(w, "refusal-connection-kept", "the OPEN must be refused, the connection is still open")
@@ -851,7 +851,21 @@ func c08SessionCases(t int) (cases []c08Case, info map[string]any) {
 	info["refusing_rows"] = len(rows2)
 	info["refusing_pairs"] = combos2
 	info["full_product_accepting"] = full
+	// simplest first (fewest deviations from a plain configuration), so that the recorded instance of a
+	// violation class is a simple one
+	sort.SliceStable(cases, func(i, j int) bool { return c08Weight(cases[i]) < c08Weight(cases[j]) })
 	return cases, info
+}
+
+func c08Weight(c c08Case) int {
+	n := 0
+	for _, b := range []bool{c.L.Fams != 1, c.L.AP4 != 0, c.L.AP6 != 0, c.L.Hold != 90, c.L.KA != 0, c.L.AS != 65000, !c.L.PeerAs,
+		c.R.Hold != 10, c.R.ASForm != 0, c.R.MP != 1, c.R.AP != 0, c.R.Ext, c.R.Unk} {
+		if b {
+			n++
+		}
+	}
+	return n
 }
 
 func TestVerif_C08_Session(t *testing.T) {
@@ -874,7 +888,7 @@ func TestVerif_C08_Session(t *testing.T) {
 	}
 	strength := 3
 	if vr.Thorough() {
-		strength = 4
+		strength = 5
 	}
 	if s := os.Getenv("VERIF_C08_STRENGTH"); s != "" {
 		strength, _ = strconv.Atoi(s)
